@@ -305,6 +305,16 @@ func checkCase(c Case) error {
 	if err != nil {
 		return fmt.Errorf("SignEFIVariable: %v", err)
 	}
+	// the returned value can be serialised as often as the caller likes (write it to a .auth file, then to the variable)
+	{
+		first := append([]byte{}, out.Bytes()...)
+		var m1, m2 bytes.Buffer
+		out.Marshal(&m1)
+		out.Marshal(&m2)
+		if !bytes.Equal(m1.Bytes(), first) || !bytes.Equal(m2.Bytes(), first) || !bytes.Equal(out.Bytes(), first) {
+			return fmt.Errorf("the signed update serialises differently when asked again: Bytes %d bytes, Marshal %d, Marshal again %d, Bytes again %d", len(first), m1.Len(), m2.Len(), len(out.Bytes()))
+		}
+	}
 	// the returned value is the update that was signed: preparing the next update on the caller's database
 	// object must not change it
 	if db, ok := m.(*signature.SignatureDatabase); ok {
